@@ -35,12 +35,19 @@ def gates(tier):
         "min_decided": {APIS[0]: 30000 * k, APIS[1]: 1500 * k},
         "shapes": {c: 5 * k for c in ["node:cls", "node:negcls", "node:dot", "node:sh", "node:alt", "node:rep", "node:ci", "node:range",
                                       "node:bounded", "charset:symbols", "charset:cased", "charset:newline", "ci:multichar-case-mapping",
-                                      "escaped-metachar", "second-pattern-same-charset-object"]},
+                                      "escaped-metachar", "second-pattern-same-charset-object"]} | {"long-repetition": 1},
         "min_hashseeds": 2,
     }
 
 
 def gen_case(rng, spec):
+    if rng.random() < 0.02:
+        N = rng.choice([300, 700, 1100])
+        sym = rng.choice("ab")
+        form = rng.choice(["%s{%d}" % (sym, N), "[%sx]{%d}" % (sym, N), "%s{%d,}" % (sym, N), "(%s|x%s){%d}" % (sym, sym, N // 2)])
+        if form.startswith("("):
+            N = None
+        return {"long_pattern": form, "charset": ["a", "b", "x", "y"], "N": N or 0, "sym": sym} if N else None
     mode = rng.choice(["ascii", "ascii", "symbols", "cased"])
     cs = set(rng.sample(ASCII_POOL, rng.randint(4, 9)))
     if mode == "symbols":
@@ -130,7 +137,49 @@ def features(n, acc):
             features(x, acc)
 
 
+def run_long(case, ctx):
+    "a pattern whose automaton is a chain of hundreds of states: built without error, accepts exactly the right lengths"
+    import re
+    import warnings
+
+    from genlm.grammar.lark_interface import interegular_to_wfsa
+
+    from rv import codec
+
+    pattern, cs, N = case["long_pattern"], case["charset"], case["N"]
+    ctx.case(codec.fingerprint(case), True, ["long-repetition"])
+    import inspect
+    import sys
+
+    old_limit = sys.getrecursionlimit()
+    ctx.recursion_is_violation = True
+    sys.setrecursionlimit(len(inspect.stack(0)) + 950)  # the interpreter's default budget, not the worker's raised one
+    try:
+        with warnings.catch_warnings():
+            warnings.simplefilter("ignore")
+            ok, m = ctx.call(APIS[0], case, interegular_to_wfsa, pattern, charset=set(cs))
+    finally:
+        sys.setrecursionlimit(old_limit)
+        ctx.recursion_is_violation = False
+    if not ok:
+        return
+    rx = re.compile(pattern)
+    a = case["sym"]
+    for s in (a * N, a * (N - 1), a * (N + 1), a * (N // 2), a * (N - 1) + cs[-1]):
+        want = rx.fullmatch(s) is not None
+        # walk the arcs (string weights of long strings underflow: acceptance is decided structurally)
+        cur = {q for q, w in m.I}
+        for ch in s:
+            cur = {j for q in cur for j, w in m.arcs(q, ch) if w != 0}
+            if not cur:
+                break
+        have = any(q in {f for f, w in m.F} for q in cur)
+        ctx.check(APIS[0], have == want, "regex/long-repetition-acceptance", dict(case, s_len=len(s)), {"pattern": pattern, "len": len(s), "have": have, "want": want})
+
+
 def run_case(case, ctx):
+    if case.get("long_pattern"):
+        return run_long(case, ctx)
     shared = set(case["charset"])  # one set object for all patterns of the case
     run_pattern(case, ctx, case["ast"], shared, first=True)
     if case.get("ast2") is not None:
